@@ -356,6 +356,19 @@ class CallMixin:
             if is_sym(a) or is_sym(b) or isinstance(a, Opt) or isinstance(b, Opt):
                 return None
             return type(a) is type(b) and a == b
+        # functools hashes the arguments: a list / dict / set (also inside a frozen dataclass or a tuple) raises TypeError
+        cond = simp(z3.Or([self.unhashable_cond(st, a) for a in args] + [F]))
+        if not z3.is_false(cond) and st.ghost.get("__hash_ok__") != q:
+            out = []
+            for bad, s_ in self.branch(st, cond):
+                if bad:
+                    out.extend(self.raise_ext(s_, "TypeError", "unhashable type"))
+                else:
+                    s_.ghost["__hash_ok__"] = q   # on this path the arguments are hashable
+                    for k_, v_, s2_ in self.call_memoized(fi, args, kwargs, s_, closure):
+                        s2_.ghost["__hash_ok__"] = None
+                        out.append((k_, v_, s2_))
+            return out
         table = st.ghost.get("__memo__", {}).get(q, ())
         for a0, r0 in table:
             eqs = [same(x, y) for x, y in zip(a0, args)] if len(a0) == len(args) else [False]
@@ -377,6 +390,30 @@ class CallMixin:
                 s.ghost["__memo__"] = memo
             out.append((k, v, s))
         return out
+
+    def unhashable_cond(self, st, v, depth=0):
+        """z3 Bool: hash(v) raises TypeError (v is, or contains through tuples / frozen dataclasses, a list, dict or set)"""
+        if depth > 12:
+            return F
+        if isinstance(v, Opt):
+            return z3.And(z3.Not(v.none), self.unhashable_cond(st, v.val, depth + 1))
+        if isinstance(v, tuple):
+            return z3.Or([self.unhashable_cond(st, x, depth + 1) for x in v] + [F])
+        if is_sym(v, "strlist"):
+            return T  # a list[str] value
+        if isinstance(v, Ref):
+            stor = st.get(v)
+            k = stor.get("__kind__")
+            if k in ("list", "dict", "set", "glist", "gdict") and v.cls != "tuple":
+                return T
+            if k in ("tuple",) or v.cls == "tuple":
+                return z3.Or([self.unhashable_cond(st, x, depth + 1) for x in stor.get("items", ())] + [F])
+            from .loader import ClassInfo as _CI
+            if isinstance(v.cls, _CI) and v.cls.is_dataclass:
+                if not v.cls.frozen:
+                    return T  # eq=True without frozen=True: __hash__ is None
+                return z3.Or([self.unhashable_cond(st, x, depth + 1) for n_, x in stor.items() if not n_.startswith("__")] + [F])
+        return F
 
     def new_symexc(self, st, prefix="exc", never=()):
         msg = fresh("str", prefix + "_msg")
